@@ -84,6 +84,9 @@ type eRun struct {
 func eRunOne(env *acct.Env, body string, useVM bool) eRun {
 	out := env.Script(eScript(body), useVM)
 	if out.Class != "none" {
+		if debugUpdate() {
+			fmt.Fprintln(debugOut(), "check script failed:", body, "\n", out.Err)
+		}
 		if eIsStatic(out) {
 			return eRun{err: "static:" + out.Kind}
 		}
@@ -157,6 +160,9 @@ func execUpdateE2E(op []string) string {
 	env.Signers = []common.Address{common.MustBytesToAddress([]byte{1})}
 	dep := env.Tx(fmt.Sprintf(`transaction { prepare(a: auth(Contracts) &Account) { a.contracts.add(name: "C", code: "%x".decodeHex()) } }`, oldSrc), useVM)
 	if dep.Class != "none" {
+		if debugUpdate() {
+			fmt.Fprintln(debugOut(), "deploy failed:", dep.Err)
+		}
 		return "setup:deploy:" + dep.Kind
 	}
 	if storeTx != "-" {
@@ -190,6 +196,9 @@ func execUpdateE2E(op []string) string {
 		var cue *stdlib.ContractUpdateError
 		if errors.As(up.Err, &cue) {
 			return "rejected:" + strings.TrimPrefix(uErrKinds(cue), "err:")
+		}
+		if debugUpdate() {
+			fmt.Fprintln(debugOut(), "update failed:", up.Err)
 		}
 		return "notchecked:" + up.Kind
 	}
@@ -284,4 +293,772 @@ func genUpdateE2E(c *hx.Ctx) {
 		sc.emit(c, "interp")
 		sc.emit(c, "vm")
 	}
+	n := c.N / 25
+	if n < 20 {
+		n = 20
+	}
+	for i := 0; i < n; i++ {
+		g := &eGen{r: c.Rng}
+		sc := g.scenario()
+		if c.Rng.Bool() {
+			sc.emit(c, "interp")
+		} else {
+			sc.emit(c, "vm")
+		}
+	}
+}
+
+// ---------------------------------------------------------------------------------------------
+// generated histories.  The contract C declares struct interfaces I0.. (I_k may conform to earlier ones),
+// enums E0.., structs S0.. (fields over Int/String/Bool, earlier structs, enums, {I}, optionals, arrays,
+// dictionaries; conformances), a resource R0 (fields), contract fields.  Values of every struct / enum /
+// resource and of container and interface types over them are stored; the new version is the old one
+// after 1-3 mutations (allowed and forbidden ones).
+
+type eTy struct {
+	K    string // Int String Bool struct enum inter opt arr dict
+	Name string
+	Elem *eTy
+}
+
+func (t *eTy) src() string {
+	switch t.K {
+	case "struct", "enum":
+		return "C." + t.Name
+	case "inter":
+		return "{C." + t.Name + "}"
+	case "opt":
+		return t.Elem.src() + "?"
+	case "arr":
+		return "[" + t.Elem.src() + "]"
+	case "dict":
+		return "{String: " + t.Elem.src() + "}"
+	}
+	return t.K
+}
+
+type eField struct {
+	Name string
+	Ty   *eTy
+}
+
+type eDecl struct {
+	Kind    string // struct | resource | enum | iface
+	Name    string
+	Confs   []string
+	Fields  []eField
+	Cases   []string
+	Removed bool // dropped from the new version
+}
+
+type eProg struct {
+	Decls   []*eDecl
+	CFields []eField // contract fields
+	Pragmas []string
+}
+
+func (p *eProg) clone() *eProg {
+	q := &eProg{CFields: append([]eField{}, p.CFields...), Pragmas: append([]string{}, p.Pragmas...)}
+	for _, d := range p.Decls {
+		e := *d
+		e.Confs = append([]string{}, d.Confs...)
+		e.Fields = append([]eField{}, d.Fields...)
+		e.Cases = append([]string{}, d.Cases...)
+		q.Decls = append(q.Decls, &e)
+	}
+	return q
+}
+
+func (p *eProg) find(name string) *eDecl {
+	for _, d := range p.Decls {
+		if d.Name == name && !d.Removed {
+			return d
+		}
+	}
+	return nil
+}
+
+func (p *eProg) ifaces() []*eDecl {
+	var out []*eDecl
+	for _, d := range p.Decls {
+		if d.Kind == "iface" && !d.Removed {
+			out = append(out, d)
+		}
+	}
+	return out
+}
+
+// all interfaces the declaration conforms to (transitively), in the given program
+func (p *eProg) effective(d *eDecl) []string {
+	seen := map[string]bool{}
+	var out []string
+	var walk func(cs []string)
+	walk = func(cs []string) {
+		for _, c := range cs {
+			if seen[c] {
+				continue
+			}
+			seen[c] = true
+			out = append(out, c)
+			if j := p.find(c); j != nil {
+				walk(j.Confs)
+			}
+		}
+	}
+	walk(d.Confs)
+	sort.Strings(out)
+	return out
+}
+
+type eGen struct {
+	r   *hx.Rng
+	old *eProg
+	cnt int
+}
+
+// value expressions (script context) with the structure needed to walk them afterwards
+type eVal struct {
+	Ty     *eTy   // static type the expression was built for
+	Expr   string // Cadence expression
+	Struct string // for composite values: the struct's name
+	Fields []*eVal
+	Case   string // enum case
+	Elem   *eVal  // optional / array / dictionary element (nil for `nil`)
+}
+
+func (g *eGen) value(t *eTy, depth int) *eVal {
+	r := g.r
+	switch t.K {
+	case "Int":
+		return &eVal{Ty: t, Expr: fmt.Sprint(r.Intn(100))}
+	case "String":
+		return &eVal{Ty: t, Expr: `"` + r.Pick([]string{"a", "bc", ""}) + `"`}
+	case "Bool":
+		return &eVal{Ty: t, Expr: r.Pick([]string{"true", "false"})}
+	case "enum":
+		d := g.old.find(t.Name)
+		c := r.Pick(d.Cases)
+		return &eVal{Ty: t, Expr: "C." + t.Name + "." + c, Case: c}
+	case "struct":
+		d := g.old.find(t.Name)
+		v := &eVal{Ty: t, Struct: t.Name}
+		var args []string
+		for _, f := range d.Fields {
+			fv := g.value(f.Ty, depth-1)
+			v.Fields = append(v.Fields, fv)
+			args = append(args, f.Name+": "+fv.Expr)
+		}
+		v.Expr = "C." + t.Name + "(" + strings.Join(args, ", ") + ")"
+		return v
+	case "inter":
+		var cands []*eDecl
+		for _, d := range g.old.Decls {
+			if d.Kind == "struct" {
+				for _, i := range g.old.effective(d) {
+					if i == t.Name {
+						cands = append(cands, d)
+					}
+				}
+			}
+		}
+		// the earliest conforming struct was declared before any field of type {I} (termination)
+		d := cands[0]
+		if depth > 0 {
+			d = cands[r.Intn(len(cands))]
+		}
+		v := g.value(&eTy{K: "struct", Name: d.Name}, depth-1)
+		return &eVal{Ty: t, Expr: v.Expr, Struct: v.Struct, Fields: v.Fields}
+	case "opt":
+		if r.Chance(25) {
+			return &eVal{Ty: t, Expr: "nil"}
+		}
+		e := g.value(t.Elem, depth-1)
+		return &eVal{Ty: t, Expr: e.Expr, Elem: e}
+	case "arr":
+		e := g.value(t.Elem, depth-1)
+		return &eVal{Ty: t, Expr: "[" + e.Expr + "]", Elem: e}
+	case "dict":
+		e := g.value(t.Elem, depth-1)
+		return &eVal{Ty: t, Expr: `{"k": ` + e.Expr + "}", Elem: e}
+	}
+	panic("eGen.value: " + t.K)
+}
+
+// a type over the declarations made so far (structs[:upto])
+func (g *eGen) ty(depth int, structs, enums, inters []string) *eTy {
+	r := g.r
+	base := func() *eTy {
+		switch r.Intn(7) {
+		case 0:
+			if len(structs) > 0 {
+				return &eTy{K: "struct", Name: r.Pick(structs)}
+			}
+		case 1:
+			if len(enums) > 0 {
+				return &eTy{K: "enum", Name: r.Pick(enums)}
+			}
+		case 2:
+			if len(inters) > 0 {
+				return &eTy{K: "inter", Name: r.Pick(inters)}
+			}
+		case 3:
+			return &eTy{K: "String"}
+		case 4:
+			return &eTy{K: "Bool"}
+		}
+		return &eTy{K: "Int"}
+	}
+	if depth <= 0 || r.Chance(55) {
+		return base()
+	}
+	k := r.Pick([]string{"opt", "arr", "dict"})
+	e := g.ty(depth-1, structs, enums, inters)
+	if e.K == "opt" && k != "arr" { // no optional of optional, no optional dictionary values
+		e = e.Elem
+	}
+	return &eTy{K: k, Elem: e}
+}
+
+func (g *eGen) program() *eProg {
+	r := g.r
+	p := &eProg{}
+	g.old = p
+	ni := 1 + r.Intn(3)
+	var inames []string
+	for i := 0; i < ni; i++ {
+		d := &eDecl{Kind: "iface", Name: fmt.Sprintf("I%d", i)}
+		for j := 0; j < i; j++ {
+			if r.Chance(50) {
+				d.Confs = append(d.Confs, fmt.Sprintf("I%d", j))
+			}
+		}
+		p.Decls = append(p.Decls, d)
+		inames = append(inames, d.Name)
+	}
+	var enames []string
+	for i, n := 0, 1+r.Intn(2); i < n; i++ {
+		d := &eDecl{Kind: "enum", Name: fmt.Sprintf("E%d", i)}
+		for k, m := 0, 1+r.Intn(4); k < m; k++ {
+			d.Cases = append(d.Cases, fmt.Sprintf("c%d", k))
+		}
+		p.Decls = append(p.Decls, d)
+		enames = append(enames, d.Name)
+	}
+	var snames, usable []string // usable: interfaces some struct conforms to
+	for i, n := 0, 2+r.Intn(3); i < n; i++ {
+		d := &eDecl{Kind: "struct", Name: fmt.Sprintf("S%d", i)}
+		for _, in := range inames {
+			if r.Chance(40) {
+				d.Confs = append(d.Confs, in)
+			}
+		}
+		for k, m := 0, r.Intn(4); k < m; k++ {
+			d.Fields = append(d.Fields, eField{fmt.Sprintf("f%d", k), g.ty(2, snames, enames, usable)})
+		}
+		p.Decls = append(p.Decls, d)
+		snames = append(snames, d.Name)
+		for _, e := range p.effective(d) {
+			found := false
+			for _, u := range usable {
+				found = found || u == e
+			}
+			if !found {
+				usable = append(usable, e)
+			}
+		}
+	}
+	rd := &eDecl{Kind: "resource", Name: "R0"}
+	for k, m := 0, 1+r.Intn(3); k < m; k++ {
+		rd.Fields = append(rd.Fields, eField{fmt.Sprintf("f%d", k), g.ty(2, snames, enames, usable)})
+	}
+	p.Decls = append(p.Decls, rd)
+	for k, m := 0, r.Intn(3); k < m; k++ {
+		p.CFields = append(p.CFields, eField{fmt.Sprintf("cf%d", k), g.ty(2, snames, enames, usable)})
+	}
+	return p
+}
+
+func eInTy(t *eTy) string { return t.src() } // inside the contract `C.S` is valid too
+
+// render; vals = initial values of the contract fields (old version only; the new version is never initialised)
+func (p *eProg) render(ifaceCount int, cvals map[string]string, qualify func() bool) string {
+	var b strings.Builder
+	b.WriteString("access(all) contract C { ")
+	for _, pr := range p.Pragmas {
+		b.WriteString(pr + " ")
+	}
+	// conformances are resolved before the contract's own name is declared: `C.I0` does not check there
+	q := func(n string) string { return n }
+	tsrc := func(t *eTy) string {
+		s := t.src()
+		if !qualify() {
+			s = strings.ReplaceAll(s, "C.", "")
+		}
+		return s
+	}
+	for _, f := range p.CFields {
+		b.WriteString("access(all) var " + f.Name + ": " + tsrc(f.Ty) + " ")
+	}
+	b.WriteString("init() { ")
+	for _, f := range p.CFields {
+		v, ok := cvals[f.Name]
+		if !ok { // the new version is never initialised
+			v = "(fun (): " + tsrc(f.Ty) + " { panic(\"never\") })()"
+		}
+		b.WriteString("self." + f.Name + " = " + v + "; ")
+	}
+	b.WriteString("} ")
+	for _, d := range p.Decls {
+		if d.Removed {
+			continue
+		}
+		confs := ""
+		if len(d.Confs) > 0 {
+			var cs []string
+			for _, c := range d.Confs {
+				cs = append(cs, q(c))
+			}
+			confs = ": " + strings.Join(cs, ", ")
+		}
+		switch d.Kind {
+		case "iface":
+			b.WriteString("access(all) struct interface " + d.Name + confs + " { access(all) fun n" + d.Name + "(): Int } ")
+		case "enum":
+			b.WriteString("access(all) enum " + d.Name + ": UInt8 { ")
+			for _, c := range d.Cases {
+				b.WriteString("access(all) case " + c + " ")
+			}
+			b.WriteString("} ")
+		case "struct", "resource":
+			b.WriteString("access(all) " + d.Kind + " " + d.Name + confs + " { ")
+			var params, assigns []string
+			for _, f := range d.Fields {
+				b.WriteString("access(all) var " + f.Name + ": " + tsrc(f.Ty) + " ")
+				params = append(params, f.Name+": "+tsrc(f.Ty))
+				assigns = append(assigns, "self."+f.Name+" = "+f.Name)
+			}
+			b.WriteString("init(" + strings.Join(params, ", ") + ") { " + strings.Join(assigns, "; ") + " } ")
+			// implements the function of every interface there is (whether conformed to or not)
+			for i := 0; i < ifaceCount; i++ {
+				fmt.Fprintf(&b, "access(all) fun nI%d(): Int { return %d } ", i, i+1)
+			}
+			b.WriteString("} ")
+			if d.Kind == "resource" {
+				var args []string
+				for _, f := range d.Fields {
+					args = append(args, f.Name+": "+f.Name)
+				}
+				b.WriteString("access(all) fun mk" + d.Name + "(" + strings.Join(params, ", ") + "): @" + d.Name +
+					" { return <- create " + d.Name + "(" + strings.Join(args, ", ") + ") } ")
+			}
+		}
+	}
+	b.WriteString("}")
+	return b.String()
+}
+
+func eTyUses(t *eTy, name string) bool {
+	for ; t != nil; t = t.Elem {
+		if t.Name == name {
+			return true
+		}
+	}
+	return false
+}
+
+// one mutation of the new version; keeps the program checkable where that is easy
+func (g *eGen) mutate(p *eProg) string {
+	r := g.r
+	pick := func(kinds ...string) *eDecl {
+		var c []*eDecl
+		for _, d := range p.Decls {
+			for _, k := range kinds {
+				if d.Kind == k && !d.Removed {
+					c = append(c, d)
+				}
+			}
+		}
+		if len(c) == 0 {
+			return nil
+		}
+		return c[r.Intn(len(c))]
+	}
+	g.cnt++
+	switch r.Intn(20) {
+	case 0, 1: // field removed (allowed)
+		if d := pick("struct", "resource"); d != nil && len(d.Fields) > 0 {
+			i := r.Intn(len(d.Fields))
+			d.Fields = append(d.Fields[:i:i], d.Fields[i+1:]...)
+			return "field-remove"
+		}
+	case 2: // field added (forbidden)
+		if d := pick("struct", "resource"); d != nil {
+			d.Fields = append(d.Fields, eField{fmt.Sprintf("g%d", g.cnt), &eTy{K: r.Pick([]string{"Int", "String"})}})
+			return "field-add"
+		}
+	case 3: // field retyped (forbidden)
+		if d := pick("struct", "resource"); d != nil && len(d.Fields) > 0 {
+			i := r.Intn(len(d.Fields))
+			t := d.Fields[i].Ty
+			switch r.Intn(3) {
+			case 0:
+				d.Fields[i].Ty = &eTy{K: "opt", Elem: t}
+			case 1:
+				if t.K == "Int" {
+					d.Fields[i].Ty = &eTy{K: "String"}
+				} else {
+					d.Fields[i].Ty = &eTy{K: "Int"}
+				}
+			default:
+				d.Fields[i].Ty = &eTy{K: "arr", Elem: t}
+			}
+			return "field-retype"
+		}
+	case 4: // fields reordered (allowed)
+		if d := pick("struct", "resource"); d != nil && len(d.Fields) > 1 {
+			i, j := r.Intn(len(d.Fields)), r.Intn(len(d.Fields))
+			d.Fields[i], d.Fields[j] = d.Fields[j], d.Fields[i]
+			return "field-reorder"
+		}
+	case 5: // field removed and re-added under the same name with another type (forbidden)
+		if d := pick("struct", "resource"); d != nil && len(d.Fields) > 0 {
+			i := r.Intn(len(d.Fields))
+			d.Fields[i].Ty = &eTy{K: "dict", Elem: d.Fields[i].Ty}
+			return "field-retype-dict"
+		}
+	case 6, 7: // conformance removed from a struct (forbidden)
+		if d := pick("struct"); d != nil && len(d.Confs) > 0 {
+			i := r.Intn(len(d.Confs))
+			d.Confs = append(d.Confs[:i:i], d.Confs[i+1:]...)
+			return "conf-remove"
+		}
+	case 8, 9: // conformance removed from an interface (forbidden since 5d4d335)
+		if d := pick("iface"); d != nil && len(d.Confs) > 0 {
+			i := r.Intn(len(d.Confs))
+			d.Confs = append(d.Confs[:i:i], d.Confs[i+1:]...)
+			return "iface-conf-remove"
+		}
+	case 10: // conformance added (allowed)
+		if d := pick("struct"); d != nil {
+			if is := p.ifaces(); len(is) > 0 {
+				c := is[r.Intn(len(is))].Name
+				for _, x := range d.Confs {
+					if x == c {
+						return "none"
+					}
+				}
+				d.Confs = append([]string{c}, d.Confs...)
+				return "conf-add"
+			}
+		}
+	case 11: // conformances reordered (allowed)
+		if d := pick("struct", "iface"); d != nil && len(d.Confs) > 1 {
+			d.Confs[0], d.Confs[len(d.Confs)-1] = d.Confs[len(d.Confs)-1], d.Confs[0]
+			return "conf-reorder"
+		}
+	case 12: // case appended (allowed)
+		if d := pick("enum"); d != nil {
+			d.Cases = append(d.Cases, fmt.Sprintf("k%d", g.cnt))
+			return "case-append"
+		}
+	case 13: // case inserted / removed / swapped (forbidden)
+		if d := pick("enum"); d != nil {
+			switch r.Intn(3) {
+			case 0:
+				d.Cases = append([]string{fmt.Sprintf("k%d", g.cnt)}, d.Cases...)
+				return "case-insert"
+			case 1:
+				if len(d.Cases) > 1 {
+					i := r.Intn(len(d.Cases))
+					d.Cases = append(d.Cases[:i:i], d.Cases[i+1:]...)
+					return "case-remove"
+				}
+			default:
+				if len(d.Cases) > 1 {
+					d.Cases[0], d.Cases[len(d.Cases)-1] = d.Cases[len(d.Cases)-1], d.Cases[0]
+					return "case-swap"
+				}
+			}
+		}
+	case 14, 15: // declaration removed, with or without pragma; only when nothing else mentions it
+		if d := pick("struct", "enum", "iface"); d != nil {
+			for _, o := range p.Decls {
+				if o == d || o.Removed {
+					continue
+				}
+				for _, f := range o.Fields {
+					if eTyUses(f.Ty, d.Name) {
+						return "none"
+					}
+				}
+				for _, c := range o.Confs {
+					if c == d.Name {
+						return "none"
+					}
+				}
+			}
+			for _, f := range p.CFields {
+				if eTyUses(f.Ty, d.Name) {
+					return "none"
+				}
+			}
+			d.Removed = true
+			if r.Chance(60) {
+				p.Pragmas = append(p.Pragmas, "#removedType("+d.Name+")")
+				return "decl-remove-pragma"
+			}
+			return "decl-remove"
+		}
+	case 16: // declaration added (allowed)
+		p.Decls = append(p.Decls, &eDecl{Kind: "struct", Name: fmt.Sprintf("N%d", g.cnt), Fields: []eField{{"a", &eTy{K: "Int"}}}})
+		return "decl-add"
+	case 17: // declarations reordered (allowed)
+		if len(p.Decls) > 1 {
+			i, j := r.Intn(len(p.Decls)), r.Intn(len(p.Decls))
+			p.Decls[i], p.Decls[j] = p.Decls[j], p.Decls[i]
+			return "decl-reorder"
+		}
+	case 18: // contract field removed (allowed) / added (forbidden)
+		if len(p.CFields) > 0 && r.Bool() {
+			p.CFields = p.CFields[1:]
+			return "cfield-remove"
+		}
+		p.CFields = append(p.CFields, eField{fmt.Sprintf("cg%d", g.cnt), &eTy{K: "Int"}})
+		return "cfield-add"
+	case 19: // struct becomes resource or the reverse (forbidden; usually ill-typed)
+		if d := pick("struct"); d != nil && len(d.Confs) == 0 {
+			d.Kind = "resource"
+			return "kind-change"
+		}
+	}
+	return "none"
+}
+
+// every composite / enum type occurring in the value is still declared by the new version (a type
+// removed with a #removedType pragma is given up on purpose: such values need not stay usable)
+func eValLive(v *eVal, newP *eProg) bool {
+	if v == nil {
+		return true
+	}
+	if v.Struct != "" && newP.find(v.Struct) == nil {
+		return false
+	}
+	if v.Case != "" && newP.find(v.Ty.Name) == nil {
+		return false
+	}
+	for _, f := range v.Fields {
+		if !eValLive(f, newP) {
+			return false
+		}
+	}
+	return eValLive(v.Elem, newP)
+}
+
+type eSlot struct {
+	Path string
+	Ty   *eTy
+	Val  *eVal
+	Res  bool
+}
+
+// checks for the value `expr` (static type known to be `v.Ty`) against the new version
+func (g *eGen) walk(id string, expr string, v *eVal, newP *eProg, out *[]eCheck, pre string) {
+	add := func(suffix, mode, body string) {
+		*out = append(*out, eCheck{id + suffix, mode, pre + body, pre + body})
+	}
+	switch v.Ty.K {
+	case "opt":
+		if v.Elem == nil {
+			add("nil", "s", "log("+expr+" == nil)")
+			return
+		}
+		g.walk(id+"o", expr+"!", v.Elem, newP, out, pre)
+		return
+	case "arr":
+		g.walk(id+"a", expr+"[0]", v.Elem, newP, out, pre)
+		return
+	case "dict":
+		g.walk(id+"d", expr+`["k"]!`, v.Elem, newP, out, pre)
+		return
+	case "enum":
+		od, nd := g.old.find(v.Ty.Name), newP.find(v.Ty.Name)
+		if nd == nil {
+			return
+		}
+		body := func(d *eDecl) string {
+			var b strings.Builder
+			b.WriteString("let e = " + expr + "; log(e.rawValue); ")
+			for _, c := range d.Cases {
+				b.WriteString("if e == C." + d.Name + "." + c + " { log(\"" + c + "\") }; ")
+			}
+			return b.String()
+		}
+		*out = append(*out, eCheck{id + "enum", "s", pre + body(od), pre + body(nd)})
+		return
+	case "inter", "struct":
+		od, nd := g.old.find(v.Struct), newP.find(v.Struct)
+		if nd == nil {
+			return // type removed: the value is not required to stay usable
+		}
+		sexpr := expr
+		if v.Ty.K == "inter" {
+			sexpr = "(" + expr + " as! C." + v.Struct + ")"
+			add("isinst", "p", "log("+expr+".isInstance(Type<"+v.Ty.src()+">()))")
+			add("icall", "s", "let w: "+v.Ty.src()+" = "+expr+"; log(w.n"+v.Ty.Name+"())")
+		}
+		// every interface the old version conformed to (transitively)
+		for _, i := range g.old.effective(od) {
+			if newP.find(i) == nil {
+				continue
+			}
+			add("is"+i, "p", "log("+sexpr+".isInstance(Type<{C."+i+"}>()))")
+			add("as"+i, "s", "let w = "+sexpr+" as! {C."+i+"}; log(w.n"+i+"())")
+		}
+		// every field the new version declares
+		for _, nf := range nd.Fields {
+			var ov *eVal
+			for k, of := range od.Fields {
+				if of.Name == nf.Name {
+					ov = v.Fields[k]
+				}
+			}
+			add("f"+nf.Name+"type", "p", "log("+sexpr+"."+nf.Name+".isInstance(Type<"+nf.Ty.src()+">()))")
+			if ov != nil {
+				// walk with the static type the old version declared; after an accepted update the new
+				// declaration denotes the same type
+				g.walk(id+nf.Name, sexpr+"."+nf.Name, ov, newP, out, pre)
+			}
+		}
+		add("str", "s", "log("+sexpr+".getType().identifier)")
+		return
+	}
+	add("v", "s", "log("+expr+")")
+}
+
+func (g *eGen) scenario() eScenario {
+	r := g.r
+	oldP := g.program()
+	newP := oldP.clone()
+	k := 1 + r.Intn(3)
+	for j := 0; j < k; j++ {
+		g.mutate(newP)
+	}
+	// contract field values
+	cvals := map[string]string{}
+	var cvs []*eVal
+	for _, f := range oldP.CFields {
+		v := g.value(f.Ty, 3)
+		cvals[f.Name] = v.Expr
+		cvs = append(cvs, v)
+	}
+	ni := len(oldP.ifaces())
+	oldSrc := oldP.render(ni, cvals, func() bool { return r.Chance(30) })
+	newSrc := newP.render(ni, nil, func() bool { return r.Chance(30) })
+
+	// slots
+	var slots []eSlot
+	var snames, enames []string
+	usable := map[string]bool{}
+	for _, d := range oldP.Decls {
+		switch d.Kind {
+		case "struct":
+			snames = append(snames, d.Name)
+			for _, i := range oldP.effective(d) {
+				usable[i] = true
+			}
+		case "enum":
+			enames = append(enames, d.Name)
+		}
+	}
+	var inames []string
+	for i := range usable {
+		inames = append(inames, i)
+	}
+	sort.Strings(inames)
+	addSlot := func(t *eTy) {
+		if t.K == "opt" {
+			t = &eTy{K: "arr", Elem: t}
+		}
+		slots = append(slots, eSlot{Path: fmt.Sprintf("/storage/v%d", len(slots)), Ty: t, Val: g.value(t, 3)})
+	}
+	for _, s := range snames {
+		addSlot(&eTy{K: "struct", Name: s})
+	}
+	for _, e := range enames {
+		addSlot(&eTy{K: "enum", Name: e})
+	}
+	for _, i := range inames {
+		addSlot(&eTy{K: "arr", Elem: &eTy{K: "inter", Name: i}})
+	}
+	for j := 0; j < 2; j++ {
+		addSlot(g.ty(3, snames, enames, inames))
+	}
+	var stmts []string
+	var checks []eCheck
+	for i, sl := range slots {
+		stmts = append(stmts, fmt.Sprintf("let x%d: %s = %s", i, sl.Ty.src(), sl.Val.Expr), fmt.Sprintf("a.storage.save(x%d, to: %s)", i, sl.Path))
+		id := fmt.Sprintf("v%d", i)
+		live := true
+		for t := sl.Ty; t != nil; t = t.Elem {
+			if t.Name != "" && newP.find(t.Name) == nil {
+				live = false
+			}
+		}
+		if !live || !eValLive(sl.Val, newP) {
+			continue
+		}
+		pre := fmt.Sprintf("let x = a.storage.copy<%s>(from: %s)!; ", sl.Ty.src(), sl.Path)
+		checks = append(checks, eCheck{id + "load", "s", pre + "log(x.getType().identifier)", pre + "log(x.getType().identifier)"})
+		anyb := fmt.Sprintf("let y = a.storage.copy<AnyStruct>(from: %s)!; log(y.getType().identifier)", sl.Path)
+		checks = append(checks, eCheck{id + "any", "s", anyb, anyb})
+		g.walk(id, "x", sl.Val, newP, &checks, pre)
+	}
+	// the resource
+	rd := oldP.find("R0")
+	{
+		var args []string
+		rv := &eVal{Ty: &eTy{K: "struct", Name: "R0"}, Struct: "R0"}
+		for _, f := range rd.Fields {
+			fv := g.value(f.Ty, 3)
+			rv.Fields = append(rv.Fields, fv)
+			args = append(args, f.Name+": "+fv.Expr)
+		}
+		stmts = append(stmts, "a.storage.save(<- C.mkR0("+strings.Join(args, ", ")+"), to: /storage/r0)")
+		if nd := newP.find("R0"); nd != nil && nd.Kind == "resource" && eValLive(rv, newP) {
+			pre := "let x = a.storage.borrow<&C.R0>(from: /storage/r0)!; "
+			checks = append(checks, eCheck{"r0load", "s", pre + "log(x.getType().identifier)", pre + "log(x.getType().identifier)"})
+			for _, nf := range nd.Fields {
+				for k, of := range rd.Fields {
+					if of.Name == nf.Name {
+						// fields read through a reference: containers and structs come out as references,
+						// so only primitives and enums are walked
+						if of.Ty.K == "Int" || of.Ty.K == "String" || of.Ty.K == "Bool" || of.Ty.K == "enum" {
+							g.walk("r0"+nf.Name, "x."+nf.Name, rv.Fields[k], newP, &checks, pre)
+						}
+					}
+				}
+				body := pre + "log(x." + nf.Name + ".getType() != Type<Never>())"
+				checks = append(checks, eCheck{"r0" + nf.Name + "has", "p", body, body})
+			}
+		}
+	}
+	// contract fields (read through the contract reference: composite and container fields come out as
+	// references, so only primitives and enums are walked; the others are only accessed)
+	cLive := true
+	for _, v := range cvs {
+		cLive = cLive && eValLive(v, newP)
+	}
+	for _, f := range newP.CFields {
+		if !cLive {
+			break
+		}
+		for k, of := range oldP.CFields {
+			if of.Name == f.Name && (of.Ty.K == "Int" || of.Ty.K == "String" || of.Ty.K == "Bool" || of.Ty.K == "enum") {
+				g.walk("c"+f.Name, "C."+f.Name, cvs[k], newP, &checks, "")
+			}
+		}
+		body := "log(C." + f.Name + ".getType() != Type<Never>())"
+		checks = append(checks, eCheck{"c" + f.Name + "has", "p", body, body})
+	}
+	return eScenario{Old: oldSrc, New: newSrc, Store: eStoreTx(stmts...), Checks: checks}
 }
